@@ -54,7 +54,7 @@ def v_rules(schema: Schema, rep: Report):
     from . import paths as PT
 
     try:
-        ppl = PT.enumerate_paths(inner, None, ex, resolve=False)
+        ppl = PT.enumerate_paths(inner, None, ex)
     except AnalysisError as e:
         ppl = None
         rep.note(f"V-R1 undecided: {e}")
